@@ -440,6 +440,33 @@ def norm_msg(msg: str, n: int = 48) -> str:
     return m[:n]
 
 
+class Timeout(BaseException):
+    """Raised by time_limit; a BaseException so that the many `except Exception`
+    blocks (ours and third-party) do not swallow it."""
+
+
+class time_limit:
+    """Per-case wall-clock watchdog (never a verdict: expiry is counted and the case is
+    skipped).  Re-raises every 5 s after expiry in case something swallows it."""
+
+    def __init__(self, seconds: float):
+        self.seconds = seconds
+
+    def _handler(self, signum: int, frame: Any) -> None:
+        raise Timeout()
+
+    def __enter__(self) -> "time_limit":
+        import signal
+        self._old = signal.signal(signal.SIGALRM, self._handler)
+        signal.setitimer(signal.ITIMER_REAL, self.seconds, 5.0)
+        return self
+
+    def __exit__(self, *a: Any) -> None:
+        import signal
+        signal.setitimer(signal.ITIMER_REAL, 0, 0)
+        signal.signal(signal.SIGALRM, self._old)
+
+
 def split_even(items: list[Any], n: int) -> list[list[Any]]:
     n = max(1, min(n, len(items))) if items else 1
     return [items[i::n] for i in range(n)]
